@@ -108,7 +108,9 @@ INFO = dict(
                "Lean term each Python expression / statement stands for) are trusted; what the rules do not translate but "
                "name: Affine._set_h_matrix and Rotation.set_rotation_matrix (numpy shape checks; Core/C08Py.lean: affineSetH, "
                "rotationSetR), Similarity._from_vector_inplace (the matrix a parameter vector stands for), every numpy "
-               "operation (abstract functions of `Np`, `GpaK`, `ProcK`); which point set a TPS kernel is centred on (the "
+               "operation (abstract functions of `Np`, `GpaK`, `ProcK`: one per numpy expression, so that hoisting an "
+               "expression into a local or a helper keeps the source translatable; private helper functions of menpo "
+               "modules are translated in place at every call); which point set a TPS kernel is centred on (the "
                "model's kernels are numbers: the rules exist only for `R2LogR2RBF(source.points)` in the constructor and "
                "`type(self.kernel)(self.target.points)` in pseudoinverse, any other centre is untranslatable = a broken "
                "obligation, but the equalities themselves do not mention the centre); ownership of arrays: `.copy()` / "
